@@ -36,13 +36,15 @@ GROUP = {
         U("Display for Posting", D, [POSTING_HDR], fn="fmt", lifetimes="keep", reveal_literals=True,
           rewrites=[RET(), ("R50",), ("R1-formatter", "fmt::Formatter<'_>", "fmt::Formatter", 1),
                     ("R31-gat-standin", "impl<Deco: Decoration> fmt::Display for WithContext<'_, Posting<'_, Deco>>", "impl WithContext<'_, Posting>", 1),
-                    ("R24-str-model", "post.account.as_undecorated().as_ref()", "post.account.as_undecorated().as_str()", 1),
+                    ("R24-str-model", "re:UnicodeWidthStr::width_cjk\\(([\\w.()]+?)\\.as_ref\\(\\)\\)", "UnicodeWidthStr::width_cjk(\\1.as_str())", 1),
+                    ("R24-str-model", "re:\\bpost_clear\\.len\\(\\)", "str_byte_len(post_clear)", "opt"),
                     ("R6c-for-ref-vec", "for m in &post.metadata {", "for mi__ in 0..post.metadata.len() { let m = &post.metadata[mi__];", 1)],
           loops={0: """
             invariant
                 f.text() == after_meta(posting_line(old(f).text(), *post, *self.context), post.metadata@, mi__ as int),   // @Posting.fmt.metadata_lines_indented_by_four_spaces
 """},
           body_start="""        proof {
+            lemma_clear_mark_width(self.value.clear_state);
             if self.value.amount is Some { lemma_value_align_inside(self.value.amount->Some_0.amount.v, *self.context); }
             if self.value.balance is Some { lemma_value_align_inside(self.value.balance->Some_0.v, *self.context); lemma_abs_le_width(self.value.balance->Some_0.v, *self.context); }
             reveal_strlit("    "); reveal_strlit(" @ "); reveal_strlit(" @@ "); reveal_strlit(" ="); reveal_strlit(" "); reveal_strlit(""); reveal_strlit("\\n"); reveal_strlit("    ; ");
